@@ -1,0 +1,37 @@
+//go:build verif
+
+// Contracts for the verification machinery in /verif (comment-only; excluded from normal builds).
+// Property C15 (partial): the machine-integer fast path of constant folding. Mode int: Go ints are
+// mathematical integers and every +, -, * on int64 carries a no-overflow obligation - which is exactly
+// what the is63bit / is32bit guards in front of the fast path have to establish.
+
+package constant
+
+// match brings two operands to a common representation (recursive over the kinds; its result is taken as
+// arbitrary here: the obligations below must hold for every pair of int64 operands that reaches the arm)
+//@ func match
+//@   trusted
+
+// BinaryOp, arm int64Val: a sum, difference or product computed in int64 does not wrap (operands outside
+// the guard's range take the arbitrary-precision path instead).
+//@ func BinaryOp
+//@   mode int
+//@   noframe
+//@   property C15
+
+// MakeUint64: values that fit int64 take the machine representation without changing value (the uint64 ->
+// int64 conversion carries an in-range obligation); larger ones take the arbitrary-precision one.
+//@ func MakeUint64
+//@   mode int
+//@   noframe
+//@   property C15
+
+// the guards themselves: exactly the 32-bit resp. 63-bit signed ranges
+//@ func is32bit
+//@   mode int
+//@   ensures[range] result == (-(1 << 31) <= x && x <= (1 << 31) - 1)
+//@   property C15
+//@ func is63bit
+//@   mode int
+//@   ensures[range] result == (-(1 << 62) <= x && x <= (1 << 62) - 1)
+//@   property C15
